@@ -114,7 +114,8 @@ def _table(case, res):
     attr, mask = case["attr"], case["mask"]
     rules = _base_rules()
     vals = VALUES[attr]
-    fname = "dir/some_file.vhd"
+    # the per-file level is keyed by the file name exactly as it is spelled on the command line: four spellings of one path
+    fname = ["dir/some_file.vhd", "./dir/some_file.vhd", "dir/../dir/some_file.vhd", "dir//some_file.vhd"][(mask + len(attr)) % 4]
     conf = {"rule": {}, "severity": SEVDEF}
     per_file = None
     lv = [l for i, l in enumerate(LEVELS) if mask & (1 << i)]
@@ -251,6 +252,10 @@ def _stack(case, res, tier):
     style = rnd.choice([None, None, "jcl", "indent_only"])
     fname_dir = vsgapi.scratch_dir()
     fname = os.path.join(fname_dir, "c12s_%d.vhd" % os.getpid())
+    if case["seed"] % 3 == 1:
+        # same file, non-canonical spelling (per-file configuration is keyed by the spelling used on the command line)
+        fname = fname_dir + ("/./" if case["seed"] % 2 else "//") + os.path.basename(fname)
+        lab["non_canonical_file_spelling"] = 1
     text = corpus.text(case["file"])
     with open(fname, "w") as fh:
         fh.write(text + "\n")
@@ -260,6 +265,15 @@ def _stack(case, res, tier):
         st_ = case["stack"]
         attr, files, target_rules, match_file = st_["attr"], st_["files"], st_["targets"], st_["match"]
         as_yaml = tuple(st_.get("yaml", ()))
+        # per-file keys were written for the file name of the process that generated the case: re-key them for this process
+        old_name = st_.get("fname")
+        if old_name and old_name != fname:
+            files = copy.deepcopy(files)
+            for conf in files:
+                for ent in conf.get("file_rules", []):
+                    for k in list(ent):
+                        if k == old_name or k == old_name + ".other":
+                            ent[fname + k[len(old_name):]] = ent.pop(k)
     else:
         if dom and rnd.random() < 0.5:
             attr = rnd.choice(sorted(dom))
@@ -311,7 +325,7 @@ def _stack(case, res, tier):
                 del conf["rule"]
             files.append(conf)
         as_yaml = tuple(i for i in range(nfiles) if rnd.random() < 0.4)
-    concrete = {"k": "stack", "seed": case["seed"], "file": case["file"], "stack": {"attr": attr, "files": files, "targets": target_rules, "match": match_file, "yaml": list(as_yaml)}, "style": style}
+    concrete = {"k": "stack", "seed": case["seed"], "file": case["file"], "stack": {"attr": attr, "files": files, "targets": target_rules, "match": match_file, "yaml": list(as_yaml), "fname": fname}, "style": style}
 
     def fail(kind, detail, rule=None):
         sig = {"kind": kind, "attr": attr}
